@@ -337,7 +337,10 @@ pub fn typed(args: &[&str]) -> Option<Vec<String>> {
 /// `build <op,op,…>`: ops `F`/`S`/`T`/`C`/`B`/`R` `:<name|->:<addr>`, `E:<from|->:<to;to>`, `K`;
 /// then `.body("x")` → envelope / error, and facts about the formatted header section
 pub fn build(args: &[&str]) -> Option<Vec<String>> {
-    let mut b = lettre::Message::builder().date(UNIX_EPOCH + Duration::from_secs(1_700_000_000));
+    // `W`: the builder comes from `MessageBuilder::default()` instead of `Message::builder()`
+    let from_default = args.first().map(|a| a.split(',').any(|o| o == "W")).unwrap_or(false);
+    let mut b = if from_default { lettre::message::MessageBuilder::default() } else { lettre::Message::builder() }
+        .date(UNIX_EPOCH + Duration::from_secs(1_700_000_000));
     // how the message is finished (`Z:<k>`): `x` a raw body "x" (default), `e` an empty raw body, `s` / `m` / `h` a MIME body
     // (single part, multipart/mixed, `alternative_plain_html`)
     let mut finish = "x".to_string();
@@ -348,6 +351,7 @@ pub fn build(args: &[&str]) -> Option<Vec<String>> {
                 ["K"] => b.keep_bcc(),
                 // `date_now()` (the Date set before is replaced, not duplicated) and `user_agent(text)`
                 ["D"] => b.date_now(),
+                ["W"] => b,
                 ["Z", k] => {
                     finish = k.to_string();
                     b
